@@ -424,7 +424,7 @@ func checkC18(p *Prog, r *Report) {
 			return
 		}
 		for _, e := range variadicElems(cc.Common()) {
-			for _, x := range valueRoots(e, nil) {
+			for _, x := range valueRoots(e, func(n string) bool { return strings.HasPrefix(n, "strings.Trim") }) {
 				if s, ok := constString(x.V); "const" == x.Kind && ok && "tab_list" == s {
 					self = true
 				}
